@@ -380,9 +380,9 @@ func main() {
 		mk(gen.FanOut(k, 16, 1, []int{2, 2, 2}, false))
 		mk(gen.FanOut(k, 8, 0, []int{0, 0, 0}, false))
 	}
-	nRand := 120
+	nRand := 900
 	if tier == "thorough" {
-		nRand = 3000
+		nRand = 6000
 	}
 	for i := 0; i < nRand; i++ {
 		mk(gen.RandomNet(rng, 5, []string{"add", "mult", "inc", "dec", "cpy"}))
